@@ -207,7 +207,11 @@ func cliCheck(res *sched.Result, w *cliWorld) (finds []explore.Finding, outcome 
 						}
 					}
 					if dl := base.Add(time.Duration(n+1) * inst.RTO); !hr.Time.After(dl) {
-						add("C11/early-timeout", "%s: timeout at %v, not after the last deadline %v; %s", name, hr.Time.Sub(cliT0), dl.Sub(cliT0), w.logString())
+						key := "C11/early-timeout"
+						if sc.Sequential {
+							key = "C11,C10/early-timeout" // (C10: "with a timeout after the last retransmission"; decided where one thread moves the clock)
+						}
+						add(key, "%s: timeout at %v, not after the last deadline %v; %s", name, hr.Time.Sub(cliT0), dl.Sub(cliT0), w.logString())
 					}
 				}
 			case strings.Contains(cls, "write-error"):
